@@ -187,7 +187,20 @@ func ruleGuardedMapReads(r *Run) {
 						held = true
 					}
 				}
-				r.check(held, construct, "the map is read with its mutex held",
+				// a helper that is only ever called with the guard held ("assumes outer locking")
+				if !held {
+					sites := callSitesOf(w)[f]
+					if len(sites) > 0 {
+						all := true
+						for _, cs := range sites {
+							if h, _ := heldAt(cs.Parent(), cs, g, false); !h {
+								all = false
+							}
+						}
+						held = all
+					}
+				}
+				r.check(held, construct, "the map is read with its mutex held (here or at every call site)",
 					fmt.Sprintf("the map %s.%s, which is only written under %s, is %s without holding it: a request that writes the map at the same time takes the whole process down (`fatal error: concurrent map read and map write`) or the read sees a half-updated map", mf.typ, mf.field, g, what), w.pos(in.Pos()))
 			}
 		}
@@ -471,4 +484,24 @@ func findFirst(f *ssa.Function, pred func(ssa.Instruction) bool) ssa.Instruction
 		}
 	}
 	return nil
+}
+
+var callSitesMemo = map[*World]map[*ssa.Function][]ssa.Instruction{}
+
+// callSitesOf: static call sites of each repository function (calls through interfaces are not listed:
+// a function reached that way has no listed site and gets no credit for its callers' locks).
+func callSitesOf(w *World) map[*ssa.Function][]ssa.Instruction {
+	if m, ok := callSitesMemo[w]; ok {
+		return m
+	}
+	m := map[*ssa.Function][]ssa.Instruction{}
+	for _, f := range w.RepoFuncs {
+		for _, c := range calls(f) {
+			if callee := staticCallee(c); callee != nil {
+				m[callee] = append(m[callee], c)
+			}
+		}
+	}
+	callSitesMemo[w] = m
+	return m
 }
